@@ -86,7 +86,9 @@ def budget(draw, min_sources=1, max_sources=4, allow_broken=True, rules_kinds=('
         for _ in range(draw(st.integers(0, 2))):
             if customs and draw(st.booleans()):
                 c, v = draw(st.sampled_from(customs))
-                m = ['and', [['exists', ['field', c]], ['cmp', ['field', c], [['==', ['str', v]]]]]]
+                m = ['cmp', ['field', c], [['==', ['str', v]]]]
+                if draw(st.booleans()):
+                    m = ['and', [['exists', ['field', c]], m]]  # guarded; unguarded, the rule cannot be evaluated for rows of sources without that column (and is skipped for THOSE rows only)
             elif locs:
                 m = ['cmp', ['name', 'location'], [['==', ['str', draw(st.sampled_from(locs))]]]]
             else:
@@ -227,7 +229,11 @@ def compose(b, mat):
             p1 = i_['path'] + '.row'
             with open(p1, 'w', encoding='utf-8', newline='') as f:
                 f.write(text1)
-            alone.extend(parse_generic_csv(p1, spec, rules, source_name=src['name'], decimal_separator=src.get('decimal_separator', '.'), transforms=transforms, data_sources=supp))
+            # read alone means: by rules loaded afresh - what the engine met in earlier rows / sources is no fact about this row
+            obs.clear_caches()
+            rules1 = get_all_rules(rp, match_mode=mode) if rp else get_all_rules(match_mode=mode)
+            transforms1 = get_transforms(rp, match_mode=mode) if rp else []
+            alone.extend(parse_generic_csv(p1, spec, rules1, source_name=src['name'], decimal_separator=src.get('decimal_separator', '.'), transforms=transforms1, data_sources=supp))
             os.unlink(p1)
         fact = lambda t: (t['raw_description'], t['amount'], str(t['date']), t['merchant'], t['category'], t['subcategory'], sorted(t['tags']), t.get('extra_fields') or None,
                           t['field'], t['location'])
